@@ -16,7 +16,8 @@ From Coq Require Import List Bool.
 From PV Require Import Base.Exn Model.PipeKernel Model.Subproc Proofs.SubprocReach Proofs.SubprocLocal Gen.Subproc.
 Import ListNotations.
 
-Lemma programs_check : check_all Gen.Subproc.parent_prog Gen.Subproc.child_prog false = true.
+(* after fix K2 (join()/rx.close() in a finally): the REGENERATED programs pass the STRICT sweep *)
+Lemma programs_check : check_all Gen.Subproc.parent_prog Gen.Subproc.child_prog true = true.
 Proof. vm_cast_no_check (@eq_refl bool true). Qed.
 
 Definition protected_parent_prog : list pop :=
